@@ -123,7 +123,7 @@ def doRecover (r : Option PanicVal) (repanicOutOfGas : Bool) : Handling :=
 /-- how the handling of a submitted program can end -/
 inductive Ending
   | success | validationError | gnoPanic | outOfGas | allocLimit   -- the statement's allowed endings
-  | internalFault | processDeath | hang                            -- the excluded ones
+  | internalFault | processDeath | hang | memGrowth                -- the excluded ones
   deriving DecidableEq, Repr, Inhabited
 
 def Ending.allowed : Ending → Bool
@@ -141,6 +141,7 @@ def Ending.ofToken : String → Option Ending
   | "crash:runtime-error" => some .internalFault
   | "crash:fatal" => some .processDeath
   | "crash:hang" => some .hang
+  | "crash:mem-growth" => some .memGrowth
   | _ => none
 
 /-- what the GnoVM was observed to do with the pinned witness of known finding
@@ -148,5 +149,12 @@ def Ending.ofToken : String → Option Ending
 size shrinkage: 1 vs 0" (values.go, Block.ExpandWith) leaves Machine.Run — not
 a Gno panic (the program's own `recover()` does not see it) -/
 def fallShrinkObserved : Ending := .internalFault
+
+/-- what was observed on the pinned witness of known finding
+`defer-panic-recursion-memory` (`func f() { defer f(); panic("x") }; func main() { f() }`
+with a 40M gas limit): the live Go heap of the process grows past twice the
+500 MB allocation cap (quadratically in the gas: 48 MB at 3M gas, 229 MB at
+10M, 1.8 GB at 30M, 7 GB at 60M) while the allocator tracks almost nothing -/
+def deferPanicRecursionObserved : Ending := .memGrowth
 
 end GnoVerif.C11
